@@ -102,6 +102,10 @@ func main() {
 	runtime.ReadMemStats(&ms)
 	tr.NumGC = ms.NumGC
 	tr.Goroutines = runtime.NumGoroutine()
+	if tr.Goroutines > 1 {
+		buf := make([]byte, 1<<16)
+		tr.Stacks = string(buf[:runtime.Stack(buf, true)])
+	}
 	emit()
 }
 
